@@ -4,5 +4,5 @@ CONSTANTS MaxPdos = 2
           Objs = {24576, 24592}
           Subs = {1}
           Widths = {1, 3, 16}
-INVARIANTS T1_Contiguous T2_Inside T3_SiiRoundTrip T4_CoERoundTrip T5_AgreesC17 T6_Defaults T7_BitInside T8_Unassigned
+INVARIANTS T1_Contiguous T2_Inside T3_SiiRoundTrip T4_CoERoundTrip T5_AgreesC17 T6_Defaults T7_BitInside T8_Unassigned LayIsLayout
 CHECK_DEADLOCK FALSE
